@@ -18,6 +18,9 @@ package main
 // Kind "upown" (c18own.go): every upstream scheme driven so that every transport / socket it owns exists at
 // Close, idle and in flight; per-leg probes and socket counts (the upstream as a composite, Net/ShutdownOwn.v).
 //
+// Kind "startcfg" (c18start.go): configurations with one fault from the catalogue of configuration errors; the
+// error must be reported and run() must leave no socket, file descriptor or goroutine (Router/StartupInit.v).
+//
 // Kind "startup": the real router (in-process VerifRun, or the real binary) with generated configurations
 // in which one initialisation step fails.
 //   case:   <id> mode=<inproc|bin> metrics=<0|1> nu=<n> nd=<n> nr=<n> srv=<proto,..> fail=<none|kind:idx> how=<..>
